@@ -37,6 +37,7 @@ func gen(g *kernel.Rng, seed uint64, tier string) *kernel.Plan {
 	for _, k := range []string{"wsegC", "wsegS"} {
 		p.Cfg[k] = int64([]int{simnet.SegWhole, simnet.SegChunky, simnet.SegWhole, simnet.SegTape}[g.Intn(4)])
 	}
+	p.Cfg["eofdata"] = int64(g.Pick(2, 1, 1, 1))
 	p.Cfg["rlimit"] = int64(g.Pick(2, 1)) // receivers set a read limit no message of the session reaches
 	n := g.Range(1, 14)
 	huge := g.Bool(0.01)
@@ -193,6 +194,8 @@ func run(p *kernel.Plan) (res *kernel.Result) {
 		ClientComp: comp && p.C("compoffer") != 2, ServerComp: comp && p.C("compoffer") != 1, ClientSub: subs[0], ServerSub: subs[1]}
 	pr := wsx.NewPair(s, tape, o)
 	pr.CC.Out.RSeg, pr.SC.Out.RSeg = int(p.C("rsegS")), int(p.C("rsegC"))
+	// the transports may hand over their last bytes together with io.EOF
+	pr.CC.Out.EOFData, pr.SC.Out.EOFData = p.C("eofdata")&1 != 0, p.C("eofdata")&2 != 0
 	pr.CC.Out.WSeg, pr.SC.Out.WSeg = int(p.C("wsegC")), int(p.C("wsegS"))
 	ends := [2]*endState{{}, {}}
 	// prepared messages are shared by both endpoints and reused for equal
